@@ -45,9 +45,10 @@ def tsnap(t, depth=0):
     if isinstance(t, tp.TypeParameter):
         return ('V', t.name, vval(t.variance), tsnap(t.bound, depth + 1))
     if isinstance(t, tp.ParameterizedType):
-        return ('P', t.name, tuple(tsnap(a, depth + 1) for a in t.type_args))
+        return ('P', _cname(t.t_constructor, t.name),
+                tuple(tsnap(a, depth + 1) for a in t.type_args))
     if isinstance(t, tp.TypeConstructor):
-        return ('TC', t.name)
+        return ('TC', _cname(t, t.name))
     if is_nothing(t):
         return ('N',)
     if isinstance(t, tp.Builtin):
@@ -55,6 +56,14 @@ def tsnap(t, depth=0):
     if isinstance(t, tp.SimpleClassifier):
         return ('C', t.name)
     return ('?', type(t).__name__, getattr(t, 'name', None))
+
+
+def _cname(tc, name):
+    # Kotlin's IntArray & co. are instantiations of a constructor that is also called
+    # "Array" but is a different class from Array<T>
+    if type(tc).__name__ == 'SpecializedArrayType':
+        return name + '#specialized'
+    return name
 
 
 def deep(t, depth=0, memo=None):
